@@ -214,6 +214,8 @@ class World:
         """Raise when `prop` is the gating property of this check, else note."""
         if inv not in self.inv:
             return
+        props = prop if isinstance(prop, tuple) else (prop,)
+        prop = self.prop if self.prop in props else props[0]
         v = Violation(prop, inv, sig, dict(detail or {}, step=self.step))
         if prop == self.prop:
             if (prop, inv, sig) in self.known:
@@ -421,11 +423,13 @@ class World:
                                  "scribble", "view_write"):
             # an edit leaked into another object: who made them alias?
             how = self._alias_origin(ctx, e)
-            if how in ("binop", "unop", "eval", "copy"):
-                return "C14", rel + "/via-" + how
             if how == "copy":
-                return "C14", rel + "/via-copy"
+                return ("C14", "C09"), rel + "/via-copy"   # copies are independent (C09 too)
+            if how in ("binop", "unop", "eval"):
+                return "C14", rel + "/via-" + how
             return "C15", rel + ("/via-" + how if how else "")
+        if k == "copy":
+            return ("C14", "C09"), rel
         if algebra:
             return "C14", rel
         return "C15", rel
@@ -474,7 +478,9 @@ class World:
             return
         self.oracle_runs["I8"] += 1
         k = ctx.op["k"]
-        prop = "C14" if k in ("binop", "unop", "eval", "copy") else "C15"
+        prop = "C14" if k in ("binop", "unop", "eval") else "C15"
+        if k == "copy":
+            prop = ("C14", "C09")
         for n, o in self.ents.items():
             if n == e.name or o.kind in ("w", "d"):
                 continue
@@ -721,7 +727,8 @@ class World:
                                          "created_kind": created_kind})
             ctx.created.append(bname)
         elif expect_new_bc:
-            self.flag("C14" if created_kind in ("binop", "unop", "eval", "copy") else "C15",
+            self.flag(("C14", "C09") if created_kind == "copy" else
+                      "C14" if created_kind in ("binop", "unop", "eval") else "C15",
                       "I2" if created_kind in ("binop", "unop", "eval", "copy") else "I8",
                       "%s/identity/bc-object-shared" % created_kind,
                       {"new": name, "bc": bname, "op": ctx.op})
@@ -1486,7 +1493,15 @@ class World:
             # copy(): equal in all visible state; ghost layer equal to the original's
             orig = self.ents[parents[0]]
             if not exact(A.full_array(res), A.full_array(orig.obj)):
-                self.flag("C14", "I2", label + "/ghost", {"op": op})
+                # ... or the coherent one (a copy() that re-applies the BCs is fine)
+                fresh = False
+                try:
+                    tw = O.build_twin(pf, ment.obj, self.ents[e.meta["bc"]].meta["state"], got)
+                    fresh = same(A.full_array(res), A.full_array(tw))
+                except Exception:
+                    pass
+                if not fresh:
+                    self.flag(("C14", "C09"), "I2", label + "/ghost", {"op": op})
             e.meta["ghost_trusted"] = orig.meta.get("ghost_trusted", True)
             e.meta["last_consume"] = orig.meta.get("last_consume", -1)
             e.meta["last_val_edit"] = orig.meta.get("last_val_edit", -1)
